@@ -334,7 +334,7 @@ LEVEL_TEXT = ("Theorems over the model of tx.miter (written call by call on the 
               "pull-backs along c0_/c1_ are consistent for strip_io(c0)/strip_io(c1), tied startpoints are shared, every dif_e is the xor of "
               "the two copies and sat is their disjunction; hence sat = 1 iff some compared node differs, and for every sound and complete "
               "solve (a quantified function, not an axiom) solve(miter, sat) is False iff the circuits agree on E for all valuations that "
-              "agree on the tied startpoints. The model is tied to tx.miter by correspondence; the property is also decided on every "
+              "agree on the tied startpoints; the miter of lint-clean circuits whose inputs are all tied is lint-clean (C20's clause). The model is tied to tx.miter by correspondence; the property is also decided on every "
               "returned miter by an exhaustive sweep whose completeness is proved.")
 LEVEL_NOTE = ("Trusted: Coq kernel + vm_compute, std++, the API model of Base/Api.v (tied to circuit.py by correspondence here and in C07), "
               "Gen_types translator shapes, harness canonicalisation. External: SAT solver as Section variable (sound + complete). "
